@@ -11,7 +11,7 @@ from harness import core, findings, pool, tlc
 
 PID = "C09"
 FORMS = ["bare", "bang", "dollarsq", "dollar", "object", "objectlazy"]
-FAULTS = ["none", "redirect_unopenable", "not_found", "alias_raises", "consumer_exits_early", "input_missing"]
+FAULTS = ["none", "redirect_unopenable", "redirect_conflict", "not_found", "alias_raises", "consumer_exits_early", "input_missing"]
 
 
 def sensible(kinds, fault, at, redirect):
@@ -26,6 +26,8 @@ def sensible(kinds, fault, at, redirect):
         return n >= 2 and at == n
     if fault in ("input_missing", "none"):
         return at == 1
+    if fault == "redirect_conflict":
+        return redirect == 0 and at == n
     return True
 
 
@@ -43,20 +45,24 @@ def universe(tier, rng):
                         for form in FORMS:
                             if redirect == n and form in ("dollar", "object", "objectlazy") and fault != "redirect_unopenable":
                                 continue
-                            scns.append({"kinds": list(kinds), "fault": fault, "at": at, "redirect": redirect, "form": form, "rop": ">" if (n + at) % 2 else ">>"})
+                            scns.append({"kinds": list(kinds), "fault": fault, "at": at, "redirect": redirect, "form": form, "rop": ">" if (n + at) % 2 else ">>", "variant": len(scns)})
                         # the first stage reading a real input file (`cat < in.txt | ...`)
                         if fault in ("none", "not_found", "alias_raises") and redirect in (0, n) and not (fault == "not_found" and at == 1):
                             scns.append({"kinds": list(kinds), "fault": fault, "at": at, "redirect": redirect, "form": FORMS[(n + at + len(scns)) % 3], "rop": ">", "infile": True})
                         # the same shape started in the background (`... &`): the job ends on its own; nothing may stay behind
                         if redirect == 0 and fault in ("none", "not_found", "consumer_exits_early"):
                             scns.append({"kinds": list(kinds), "fault": fault, "at": at, "redirect": 0, "form": "background"})
+    # an alias marked unthreadable runs in the shell's own thread (only allowed as a single stage)
+    for form in FORMS:
+        scns.append({"kinds": ["ualias"], "fault": "none", "at": 1, "redirect": 0, "form": form, "repeat": 3})
+    scns.append({"kinds": ["ualias"], "fault": "none", "at": 1, "redirect": 1, "form": "bare", "rop": ">"})
     if tier == "quick":
         for i, s in enumerate(scns):
             if s["redirect"] and s["fault"] in ("none", "alias_raises", "consumer_exits_early") and i % 3 == 0:
                 s["rop"] = ("2>", "a>", "e>")[(i // 3) % 3]
         scns = [s for i, s in enumerate(scns) if s["fault"] != "none" or i % 2 == 0]
         # single-stage shapes with a fault are few and cheap: always kept
-        always = lambda s: (len(s["kinds"]) == 1 and s["fault"] != "none") or (s["form"] == "background" and len(s["kinds"]) <= 2)
+        always = lambda s: (len(s["kinds"]) == 1 and (s["fault"] != "none" or s["kinds"] == ["ualias"])) or (s["form"] == "background" and len(s["kinds"]) <= 2)
         keep = [s for s in scns if always(s)]
         rest = [s for s in scns if not always(s)]
         scns = keep + rng.sample(rest, min(len(rest), 150))
@@ -89,6 +95,10 @@ def run(tier, seed, replay=None):
         mc = tlc.model_check("Resources", cfg_text=cfg_text, coverage=True, timeout=900)
         if mc.get("never_taken"):
             raise tlc.TLCError(f"vacuity: actions never taken in Resources: {mc['never_taken']}")
+        if tier == "thorough":
+            # the liveness formulation itself (`Terminates` under weak fairness) on the two-stage instance
+            live = tlc.model_check("Resources", cfg_text=open(os.path.join(tlc.SPECS, "Resources_live.cfg")).read(), coverage=False, timeout=900)
+            res.coverage["liveness_instance"] = {"distinct": live.get("distinct"), "property": "Terminates", "MaxStages": 2}
         selftest = {}
         for dev in ("Dev_RedirectFailureLeaks", "Dev_NotFoundLeaksEarlierStages", "Dev_EarlyExitLeavesProducer", "Dev_WriterKeptAfterProducerExit", "Dev_BackgroundKeepsConnectingPipes", "Dev_BackgroundAliasKeepsPipes"):
             r = tlc.model_check("Resources", cfg_text=core.set_deviations(cfg_text, [dev]), expect_ok=False, coverage=False, timeout=600)
@@ -108,11 +118,12 @@ def run(tier, seed, replay=None):
         for a in o.get("diagnostics", {}):
             advisory[a] = advisory.get(a, 0) + 1
     for a, n in sorted(advisory.items()):
-        print(f"ADVISORY property={PID} {a}: seen in {n} scenario(s) (timing-dependent observation, not part of the verdict)")
+        eg = [t["src"].replace("\n", " ; ")[:70] for t in out if a in t["steps"][0]["obs"].get("diagnostics", {})][:3]
+        print(f"ADVISORY property={PID} {a}: seen in {n} scenario(s) (timing-dependent observation, not part of the verdict), e.g. {eg}")
     cov = {
         "evaluations": len(out),
         "distinct_nontrivial": len({t["src"] for t in out if t["scn"]["fault"] != "none"}),
-        "rule": "one case = a pipeline shape (1-3 stages, each an external process or a callable alias; output redirect (>, >>, 2>, a>, e>) on the last stage or none; the first stage reading a real input file or not; run bare, as ![], $[], $(), !() ended or !() lazily, or started in the background with a trailing &) with one fault injected by construction of the command (redirect target unopenable, input file missing, command not found at stage i, alias raising at stage i, consumer exiting after one byte while the producer writes 3 MB) executed 3 (thorough: also 12) times after one unmeasured warm-up in a loaded session; before and after (settling up to 3 s) the harness snapshots /proc/self/fd with link targets, live threads, /proc/self/task/*/children, cwd, identity of sys.std*, handlers of INT/TSTP/QUIT/WINCH, os.environ and the detyped session environment, and finally sends itself SIGINT (KeyboardInterrupt must be raised); non-trivial = a fault is injected; distinct by command text",
+        "rule": "one case = a pipeline shape (1-3 stages, each an external process or a callable alias (or one alias marked unthreadable); output redirect (>, >>, 2>, a>, e>) on the last stage or none; the first stage reading a real input file or not; run bare, as ![], $[], $(), !() ended or !() lazily, or started in the background with a trailing &) with one fault injected by construction of the command (redirect target unopenable, two conflicting redirections of one stream, input file missing, command not found at stage i, alias raising at stage i, consumer exiting after one byte while the producer writes 3 MB) executed 3 (thorough: also 12) times after one unmeasured warm-up in a loaded session; before and after (settling up to 3 s) the harness snapshots /proc/self/fd with link targets, live threads, /proc/self/task/*/children, cwd, identity of sys.std*, handlers of INT/TSTP/QUIT/WINCH, os.environ and the detyped session environment, and finally sends itself SIGINT (KeyboardInterrupt must be raised); non-trivial = a fault is injected; distinct by command text",
         "samples": [{"src": t["src"], "fault": t["scn"]["fault"], "clean": t["steps"][0]["obs"]["clean"]} for t in out[-3:]],
         "states": mc.get("distinct", 1),
         "transitions": mc.get("states", 1),
